@@ -68,12 +68,13 @@ func b2s(b bool) string {
 // ---- subscribers ----------------------------------------------------------------------------------------------
 
 type seqSub struct {
-	unsub  func()
-	dead   bool
-	notes  []string     // canonical notes in delivery order
-	fold   map[int]bool // set subscribers: the folded contents
-	prev   int          // variable subscribers: new value of the last note (0 before the first)
-	broken string       // first chain violation seen by the callback itself
+	unsub    func()
+	dead     bool
+	notes    []string     // canonical notes in delivery order
+	fold     map[int]bool // set subscribers: the folded contents
+	prev     int          // variable subscribers: new value of the last note (0 before the first)
+	broken   string       // first chain / true-difference violation seen by the callback itself
+	spurious string       // first note that reports no change (other than an initial one)
 }
 
 type seqWorld struct {
@@ -94,6 +95,17 @@ func (w *seqWorld) setCallback(i int) func(ds.SetMutations[int]) {
 		s := w.subs[i]
 		n := showMut(m)
 		s.notes = append(s.notes, n)
+		// the reported mutation is a true difference: what is added was absent, what is deleted was present
+		m.AddedElements().Range(func(e int) {
+			if s.fold[e] && s.broken == "" {
+				s.broken = fmt.Sprintf("note %s reports %d as added although the subscriber already holds it", n, e)
+			}
+		})
+		m.DeletedElements().Range(func(e int) {
+			if !s.fold[e] && !m.AddedElements().Has(e) && s.broken == "" {
+				s.broken = fmt.Sprintf("note %s reports %d as deleted although the subscriber does not hold it", n, e)
+			}
+		})
 		// fold exactly the way ds.Set.Apply applies mutations: additions first, then deletions
 		m.AddedElements().Range(func(e int) { s.fold[e] = true })
 		m.DeletedElements().Range(func(e int) { delete(s.fold, e) })
@@ -109,6 +121,9 @@ func (w *seqWorld) varCallback(i int) func(int, int) {
 		s := w.subs[i]
 		if p != s.prev && s.broken == "" {
 			s.broken = fmt.Sprintf("note (%d,%d) after a note whose new value was %d", p, n, s.prev)
+		}
+		if p == n && len(s.notes) > 0 && s.spurious == "" {
+			s.spurious = fmt.Sprintf("note (%d,%d) reports no change", p, n)
 		}
 		s.prev = n
 		note := fmt.Sprintf("%d:%d", p, n)
@@ -184,6 +199,16 @@ func (w *seqWorld) oracle(r *hx.Run, op string) {
 			if showInts(f) != showInts(w.contents()) {
 				r.Fail("set-fold", fmt.Sprintf("after %q subscriber %d folds its notes %v to {%s} but ToSlice() is {%s}", op, i, s.notes, showInts(f), showInts(w.contents())),
 					map[string]string{"oracle": "set-fold", "op": opk, "mode": "seq"})
+				// resynchronise, so that a later, different defect is still reported with its own operation
+				s.fold = map[int]bool{}
+				for _, e := range w.contents() {
+					s.fold[e] = true
+				}
+			}
+			if s.broken != "" {
+				r.Fail("true-difference", fmt.Sprintf("after %q subscriber %d: %s (notes %v)", op, i, s.broken, s.notes),
+					map[string]string{"oracle": "true-difference", "op": opk, "mode": "seq"})
+				s.broken = ""
 			}
 		} else {
 			if s.broken != "" {
@@ -191,9 +216,15 @@ func (w *seqWorld) oracle(r *hx.Run, op string) {
 					map[string]string{"oracle": "chain", "op": opk, "mode": "seq"})
 				s.broken = ""
 			}
+			if s.spurious != "" {
+				r.Fail("spurious-note", fmt.Sprintf("after %q subscriber %d: %s (notes %v)", op, i, s.spurious, s.notes),
+					map[string]string{"oracle": "spurious-note", "op": opk, "mode": "seq"})
+				s.spurious = ""
+			}
 			if s.prev != w.value() {
 				r.Fail("last-is-final", fmt.Sprintf("after %q subscriber %d last saw %d but Get() is %d (notes %v)", op, i, s.prev, w.value(), s.notes),
 					map[string]string{"oracle": "last-is-final", "op": opk, "mode": "seq"})
+				s.prev = w.value()
 			}
 		}
 	}
